@@ -45,7 +45,25 @@ def run(ctx):
               f"the worklist is manipulated with {[o for o, _ in ops]}: sections are no longer visited breadth-first, so a deeper definition can win over a nearer one", node=lp)
     ret = A.returns(gi.node)[-1]
     ctx.check("R1", gi, M.pat(f"[_section_data($n, $st[0]) for ($n, $st) in {wl}]").matches(ret.value) is not None, "result-in-visit-order", "the result lists the sections in visiting order, each represented by the front of its stack")
-    ctx.floor("R1", 3)
+    # parents are queued in the order the section lists them: the rendered inherit list reaches the inner loop as it is (no
+    # sorted() / set() / de-duplication in between, which would replace list order by alphabetical or hash order)
+    REORDER = {"sorted", "set", "frozenset", "reversed", "fromkeys", "stable_unique", "unique", "iter_stable_unique", "dict", "OrderedDict", "shuffle", "sort"}
+    inner = [n for n in A.walk(lp) if isinstance(n, ast.For) and n is not lp]
+    rv_pat = M.pat("$_.render_value(self, 'inherit', 'list')")
+    rvs = [(t.id, v) for t, v, _ in A.assignments(gi.node) if isinstance(t, ast.Name) and any(rv_pat.matches(c) for c in ast.walk(v) if isinstance(c, ast.Call))]
+    rv = {"inh": rvs[0][0]} if rvs else None
+    if ctx.check("R1", gi, rv is not None and bool(inner), "inherit-list-walked", "the inherit list of the section being visited is walked by an inner loop"):
+        src = inner[0].iter
+        through = [A.unparse(c.func).split(".")[-1] for c in ast.walk(src) if isinstance(c, ast.Call)]
+        defs = [v for t, v, _ in A.assignments(gi.node, rv["inh"])]
+        through += [A.unparse(c.func).split(".")[-1] for v in defs for c in ast.walk(v) if isinstance(c, ast.Call)]
+        through += [A.call_attr(c) for c in A.calls(lp) if A.call_attr(c) in ("sort", "reverse") and A.unparse(c.func.value) == rv["inh"]]
+        bad = sorted((set(through) - {"render_value"}) & REORDER)
+        uses_list = any(isinstance(n, ast.Name) and n.id == rv["inh"] for n in ast.walk(src))
+        ctx.check("R1", gi, uses_list and not bad, "parents-in-list-order:" + ",".join(bad), "the parents are visited in the order the inherit list names them",
+                  f"the inherit list passes through {bad or 'another iterable'} before it is walked: parents are visited in alphabetical / hash order instead of list order, so for a key set by "
+                  f"two parents the wrong one is nearest", node=inner[0])
+    ctx.floor("R1", 5)
 
     # ---- R2 first match --------------------------------------------------------------------------------------
     rv = P.func(MOD, "_ConfigStack.render_value")
@@ -108,3 +126,7 @@ MUTANTS = [
     {"name": "stacks-prepended", "file": F, "old": "                config_stack[key].append(data)", "new": "                config_stack[key].insert(0, data)", "rule": "R2"},
 ]
 TWINS = []
+
+MUTANTS += [
+    {"name": "inherit-list-sorted-unique", "file": "src/pkgcore/config/central.py", "old": "            for inherit in inherits:\n", "new": "            for inherit in sorted(set(inherits)):\n", "rule": "R1"},
+]
